@@ -301,30 +301,41 @@ def _collate(ctx, f, rel):
                f"`{u(c)[:80]}` re-orders `{u(arg)}` - a single column / after the unzip - so the other columns "
                f"(sizes, utterance ids) no longer line up with their rows", rel, c.lineno, sample=u(c)[:100])
     col.count(f"sort_sites[{f.name}]", len(sorts))
-    # sizes from un-padded sequences
+    # sizes from un-padded sequences: a sizes tensor is torch.tensor([<len of x> for x in COL]); COL must be an
+    # un-padded column (its reaching definition is the unzip, not pad_sequence), each sizes tensor must measure its
+    # own column (no two measure the same one), and the column must be one that is padded and returned
     n_sz = 0
+    measured = []
     for n in own_nodes(f.node):
-        if isinstance(n, ast.Assign) and isinstance(n.targets[0], ast.Name) and n.targets[0].id.endswith("_sizes") \
-                and isinstance(n.value, ast.Call) and call_name(n.value) == "torch.tensor":
-            comp = n.value.args[0] if n.value.args else None
-            if isinstance(comp, ast.ListComp):
-                it = comp.generators[0].iter
-                n_sz += 1
-                padded = False
-                if isinstance(it, ast.Name):
-                    padded = any(isinstance(d.value, ast.Call) and "pad_sequence" in call_name(d.value) for d in rd.defs_of(it))
-                base = n.targets[0].id[: -len("_sizes")]
-                okname = isinstance(it, ast.Name) and it.id.startswith(base)
-                col.ob("G16", "S4", f"{where}::{n.targets[0].id}<-unpadded({u(it)})", not padded and okname,
-                       f"`{u(n)}` measures `{u(it)}`" + (" after padding (every size becomes the maximum)" if padded else
-                                                         f", not the {base} column"), rel, n.lineno, sample=u(n))
+        if isinstance(n, ast.Assign) and isinstance(n.targets[0], ast.Name) and isinstance(n.value, ast.Call) \
+                and call_name(n.value) == "torch.tensor" and n.value.args and isinstance(n.value.args[0], ast.ListComp):
+            comp = n.value.args[0]
+            it = comp.generators[0].iter
+            n_sz += 1
+            padded = False
+            if isinstance(it, ast.Name):
+                padded = any(isinstance(d.value, ast.Call) and ("pad_sequence" in call_name(d.value) or call_name(d.value) == "torch.cat")
+                             for d in rd.defs_of(it))
+            measured.append(u(it))
+            col.ob("G16", "S4", f"{where}::sizes[{n_sz}]<-unpadded-column", not padded and isinstance(it, ast.Name),
+                   f"`{u(n)}` measures `{u(it)}` after padding (every size becomes the maximum)", rel, n.lineno, sample=u(n))
     col.floor(f"size_sites[{f.name}]", n_sz, 1)
+    col.ob("G16", "S4", f"{where}::each-sizes-tensor-measures-its-own-column", len(set(measured)) == len(measured),
+           f"sizes tensors measure the columns {measured}: two of them measure the same column", rel, f.line, sample=measured)
+    padded_cols = {u(c.args[0]) for c in own_calls(f.node) if (call_name(c).endswith("pad_sequence") or call_name(c) == "torch.cat") and c.args}
+    col.ob("G16", "S4", f"{where}::measured-columns-are-the-padded-ones", set(measured) <= padded_cols,
+           f"sizes are measured on {measured} but the padded columns are {sorted(padded_cols)}", rel, f.line)
     # pad values
     for c in own_calls(f.node):
         if call_name(c).endswith("pad_sequence"):
             tgt = u(c.args[0]) if c.args else "?"
             pv = kwarg(c, "padding_value")
-            want = "0" if tgt.startswith("feat") else "config.INDEX_PAD_VALUE"
+            # features are the first element of every item (first slot of the unzip); only spect/context batches have them
+            first_slot = False
+            if c.args and isinstance(c.args[0], ast.Name):
+                first_slot = any(d.kind == "unpack" and d.slot == (0,) for d in rd.defs_of(c.args[0]))
+            is_feat = first_slot and f.name != "lang_seq_to_batch"
+            want = "0" if is_feat else "config.INDEX_PAD_VALUE"
             col.ob("G13", "S4", f"{where}::pad({tgt})", pv is not None and u(pv) == want and
                    (kwarg(c, "batch_first") is not None and u(kwarg(c, "batch_first")) == "batch_first"),
                    f"`{tgt}` is padded with {u(pv) if pv is not None else 'the default'} (expected {want}) / ignores "
@@ -363,11 +374,11 @@ def _mutants():
         M("sort-refs-only", D, "if has_uttids:\n    refs, uttids = zip(*seq)\nelse:\n    refs = seq\nref_sizes",
           "if has_uttids:\n    refs, uttids = zip(*seq)\nelse:\n    refs = seq\nrefs = sorted(refs, key=lambda x: x.size(0), reverse=True)\nref_sizes", "sort-whole-items-before-unzip"),
         M("sizes-after-padding", D, "feat_sizes = torch.tensor([x.size(0) for x in feats])\n    feats = torch.nn.utils.rnn.pad_sequence(feats, padding_value=0, batch_first=batch_first)",
-          "feats = torch.nn.utils.rnn.pad_sequence(feats, padding_value=0, batch_first=batch_first)\n    feat_sizes = torch.tensor([x.size(0) for x in feats])", "unpadded"),
+          "feats = torch.nn.utils.rnn.pad_sequence(feats, padding_value=0, batch_first=batch_first)\n    feat_sizes = torch.tensor([x.size(0) for x in feats])", "unpadded-column"),
         M("ref-sizes-from-feats", D, "ref_sizes = torch.tensor([len(x) for x in refs])\n        refs = torch.nn.utils.rnn.pad_sequence(refs, padding_value=config.INDEX_PAD_VALUE, batch_first=batch_first)\n    else:\n        ref_sizes = refs = None\n    if has_alis:",
-          "ref_sizes = torch.tensor([len(x) for x in feats])\n        refs = torch.nn.utils.rnn.pad_sequence(refs, padding_value=config.INDEX_PAD_VALUE, batch_first=batch_first)\n    else:\n        ref_sizes = refs = None\n    if has_alis:", "ref_sizes<-unpadded"),
+          "ref_sizes = torch.tensor([len(x) for x in feats])\n        refs = torch.nn.utils.rnn.pad_sequence(refs, padding_value=config.INDEX_PAD_VALUE, batch_first=batch_first)\n    else:\n        ref_sizes = refs = None\n    if has_alis:", "each-sizes-tensor-measures-its-own-column"),
         M("ali-pad-zero", D, "alis = torch.nn.utils.rnn.pad_sequence(alis, padding_value=config.INDEX_PAD_VALUE, batch_first=batch_first)",
-          "alis = torch.nn.utils.rnn.pad_sequence(alis, padding_value=0, batch_first=batch_first)", "pad(alis)"),
+          "alis = torch.nn.utils.rnn.pad_sequence(alis, padding_value=0, batch_first=batch_first)", "pad("),
         M("bucket-no-del", D, "yield batch\n                del batches[hash_]", "yield batch", "per-index-path"),
         M("bucket-wrong-key", D, "batch = batches.setdefault(hash_, [])", "batch = batches.setdefault(batch_size, [])", "append-to-own-bucket"),
         M("bucket-leftovers-always", D, "if not self.drop_incomplete:\n            for _, batch in", "if True:\n            for _, batch in", "leftovers-iff-kept"),
